@@ -32,6 +32,11 @@ fn main() {
             imp::quiet_panics();
             std::process::exit(checks::robust::rung_child(&a[2], a[3].parse().unwrap_or(8)));
         }
+        "history" => {
+            imp::quiet_panics();
+            let idx: Vec<usize> = a[2..].iter().filter_map(|x| x.parse().ok()).collect();
+            std::process::exit(checks::purity::history_child(&idx));
+        }
         "selftest" => {
             std::process::exit(selftest::run(true));
         }
@@ -58,6 +63,9 @@ fn main() {
                     "C05" => checks::logic::run(&tier),
                     "C10" => checks::funcs::run(&tier),
                     "C09" => checks::refs::run(&tier),
+                    "C13" => checks::spellings::run(&tier),
+                    "C15" => checks::views::run(&tier),
+                    "C12" => checks::purity::run(&tier),
                     "C06" | "C07" | "C08" => checks::lang::run(&prop, &tier),
                     _ => {
                         eprintln!("no check for {}", prop);
